@@ -12,6 +12,12 @@ declare -A checks=(
  [b07_fallback_named_condition]="C10"
  [b08_swap_field_writes_execution]="C08 C17 C15"
  [b09_extract_helper_retry]="C02 C16"
+ [b10_with_via_local_builder]="C06"
+ [b11_run_via_local_executor]="C01 C15"
+ [b12_computedelay_guard_first]="C13 C03 C04"
+ [b13_failureresult_stepwise]="C01 C06"
+ [b14_timed_reset_reordered]="C03"
+ [b15_smooth_via_local]="C05"
  [x01_rename_contract_named_local_hedge]="C09"
  [x02_range_to_index_loop]="C12"
 )
